@@ -177,6 +177,7 @@ func Load(repo, tier string) *World {
 			}
 		}
 	}
+	initSprintf(w)
 	return w
 }
 
